@@ -14,6 +14,12 @@ SYM_FAMS = ['gapped', 'posgapped', 'generic', 'clustered', 'repeated', 'graded',
 GEN_FAMS = ['grandom', 'gnormal', 'gtriangular', 'gskew', 'gperm', 'gorth', 'gnilpotent', 'gidentity', 'grealspec', 'gzero']
 
 
+def bad_rules_for(cls):
+    """legal SortRule values the class does not support: (selection rules that throw, sorting rules that throw)"""
+    sels, sorts = rules_for(cls)
+    return [r for r in range(9) if r not in sels], [r for r in range(9) if r not in sorts]
+
+
 def is_gen(cls):
     return cls in GEN
 
